@@ -96,6 +96,10 @@ func (fc *FnCtx) Generate() (err error) {
 	fc.declare("held@0", arrSort(sBool))
 	fc.ghost["held"] = "held@0"
 	fc.ghost0["held"] = "held@0"
+	// lemmas this function relies on (each proved separately by its own obligations)
+	for _, u := range strings.Fields(fc.con.Opts["uses"]) {
+		fc.assume(fc.eng.lemmaFormula(fc, u))
+	}
 	// preconditions
 	for _, r := range fc.con.Requires {
 		t := fc.evalBool(r.E, env0)
